@@ -1,6 +1,6 @@
 """C14 configuration for ./check (see checks/propcfg.py for the keys)."""
 CFG = {
-    "modules": ["VaxisModel.Props.C14", "VaxisModel.Props.C14Facts", "VaxisModel.Props.C14Body", "VaxisModel.Witness.F39", "VaxisModel.Witness.F40",
+    "modules": ["VaxisModel.Props.C14", "VaxisModel.Props.C14Facts", "VaxisModel.Props.C14Body", "VaxisModel.Props.C14Bounds", "VaxisModel.Witness.C14Paint", "VaxisModel.Witness.F39", "VaxisModel.Witness.F40",
                 "VaxisModel.Witness.F41", "VaxisModel.Witness.F42", "VaxisModel.Witness.F114"],
     "extractors": ["C11", "C14"],
     "drivers": ["C14"],
